@@ -353,7 +353,7 @@ def run_shard(ctx):
     def test(case):
         check_case(ctx, case)
 
-    runner.drive(ctx, test, ctx.n(400, 8000))
+    runner.drive(ctx, test, ctx.n(600, 10000))
     real_signal_runs(ctx, 1 if ctx.tier == "quick" else 6)
 
 
